@@ -4,8 +4,9 @@
    to_int c e = Some p : the number c * 10^e is the integer p (any scale: 1.0 is 1);
    spec_index n p : the 0-based index that position p denotes in a sequence of length n (1..n from the start, -1..-n from the end);
    fits n : n <= 2^64 - 1 (the length of a list that exists in memory);  teq : C09's equality. *)
-From Coq Require Import List NArith ZArith Bool Arith Permutation.
+From Coq Require Import List NArith ZArith Bool Arith Permutation Sorted.
 From DV Require Import C09.Values C09.Model C08.Model C08.Proofs.
+From DV Require Import C08.Model2 C08.StddevSqrt C08.SortProofs C08.ModeProofs C08.StatProofs C08.LiteralProofs.
 Import ListNotations.
 Open Scope Z_scope.
 
@@ -247,11 +248,176 @@ Theorem C08_min_max_dispatch :
   b_min (VNum c e :: r) = min_num (c, e) r /\ b_min (VStr s :: r) = min_str s r /\
   b_max false (VNull :: r) = VNull /\ b_min (VNull :: r) = VNull /\ b_max false (VBool true :: r) = VNull /\ b_min (VBool true :: r) = VNull.
 Proof. exact min_max_dispatch. Qed.
-(* partial: membership only; that the results are exactly the most frequent values in ascending order is checked by the correspondence, not proved *)
-Theorem C08_mode_members_partial :
-  forall n ns, exists rs,
-  b_mode (map vnum (n :: ns)) = VList (map vnum rs) /\ (forall r, In r rs -> In r (n :: ns)).
-Proof. exact mode_members_partial. Qed.
+(* ---------------- mode, sort, median, stddev, split / replace / matches (second model file C08/Model2.v) ----------------
+   nlt / neqv : the order / the equality of numbers as values (1 = 1.0);  mult x l : the number of items of l equal to x;
+   first_of v l : v is the first item of l with its value;
+   is_mode_of l rs : rs is strictly ascending, each member is the first item of l with its value and no item of l is more frequent,
+                     every item of maximal multiplicity has its value in rs;
+   swo_on lt l (boolean) : lt is irreflexive and transitive on the items of l and x < z implies x < y or y < z (a strict weak order;
+                     every strict total order is one);  sorted_by lt l : no later item strictly precedes an earlier one;
+   eqv lt x y : neither precedes the other;  is_order_stat l i v : v is an item, at most i items are below v, more than i are not above v;
+   radd / rsub / rsquare : the exact operation followed by the rounding to 34 digits (nround), rsum : their fold;
+   split_lit / replace_lit : leftmost non-overlapping occurrences of a literal pattern;  join d ps : the pieces with d between them. *)
+Theorem C08_mode :
+  forall n ns, exists rs, b_mode (map vnum (n :: ns)) = VList (map vnum rs) /\ is_mode_of (n :: ns) rs.
+Proof. exact mode_spec. Qed.
+Theorem C08_mode_is_determined :
+  forall l rs rs', is_mode_of l rs -> is_mode_of l rs' -> rs = rs'.
+Proof. exact is_mode_of_unique. Qed.
+Theorem C08_mode_reading :
+  forall l rs, is_mode_of l rs <->
+  StronglySorted (fun a b => nlt a b = true) rs /\
+  (forall r, In r rs -> In r l /\ hd_error (filter (neqv r) l) = Some r /\
+             forall x, In x l -> (length (filter (neqv x) l) <= length (filter (neqv r) l))%nat) /\
+  (forall x, In x l -> (forall y, In y l -> (length (filter (neqv y) l) <= length (filter (neqv x) l))%nat) ->
+             exists r, In r rs /\ neqv x r = true).
+Proof. exact is_mode_of_reading. Qed.
+Theorem C08_mode_outside_domain :
+  b_mode [] = VList [] /\
+  forall pre x post, (match x with VNum _ _ => False | _ => True end) -> b_mode (map vnum pre ++ x :: post) = VNull.
+Proof. exact mode_outside. Qed.
+Theorem C08_mode_runs :
+  forall l, runs l [] = groups l.
+Proof. exact runs_is_groups. Qed.
+
+(* the number sort of median and mode: the stable ascending sort *)
+Theorem C08_number_sort_stable :
+  forall l, Permutation (nsort l) l /\ StronglySorted (fun a b => nlt b a = false) (nsort l) /\
+  forall z, filter (neqv z) (nsort l) = filter (neqv z) l.
+Proof. exact nsort_spec. Qed.
+
+(* sort(list, precedes) *)
+Theorem C08_sort_by_precedes :
+  forall xs f, swo_on (precedes_true f) xs = true ->
+  exists res, b_sort (VList xs) 2 f = VList res /\ Permutation res xs /\
+    sorted_by (precedes_true f) res /\
+    forall z, In z xs -> filter (eqv (precedes_true f) z) res = filter (eqv (precedes_true f) z) xs.
+Proof. exact sort_spec. Qed.
+Theorem C08_sort_is_determined :
+  forall xs f res, swo_on (precedes_true f) xs = true -> Permutation res xs ->
+  sorted_by (precedes_true f) res ->
+  (forall z, In z xs -> filter (eqv (precedes_true f) z) res = filter (eqv (precedes_true f) z) xs) ->
+  b_sort (VList xs) 2 f = VList res.
+Proof. exact sort_is_determined. Qed.
+Theorem C08_sorted_by_positions :
+  forall (lt : value -> value -> bool) l, sorted_by lt l ->
+  forall i j d, (i < j < length l)%nat -> lt (nth j l d) (nth i l d) = false.
+Proof. exact (@sorted_by_nth value). Qed.
+Theorem C08_sort_any_relation_permutation :
+  forall xs f, exists res, b_sort (VList xs) 2 f = VList res /\ Permutation res xs.
+Proof. exact sort_permutation_any_relation. Qed.
+Theorem C08_sort_outside_domain :
+  forall l n f, (match l with VList _ => n <> 2%N | _ => True end) -> b_sort l n f = VNull.
+Proof. exact sort_outside_domain. Qed.
+Theorem C08_number_order_is_strict_weak :
+  forall l, swo_on nlt l = true.
+Proof. exact nlt_swo. Qed.
+Example C08_sort_nonvacuous :
+  let l := [VNum 3 0; VNum 1 0; VNum 20 (-1); VNum 10 (-1); VNum 2 0] in
+  swo_on (precedes_true v_lt) l = true /\ swo_on (precedes_true v_gt) l = true /\
+  b_sort (VList l) 2 v_lt = VList [VNum 1 0; VNum 10 (-1); VNum 20 (-1); VNum 2 0; VNum 3 0] /\
+  b_sort (VList l) 2 v_gt = VList [VNum 3 0; VNum 20 (-1); VNum 2 0; VNum 1 0; VNum 10 (-1)] /\
+  b_sort (VList [VStr [98]%N; VStr [97; 98]%N; VStr []]) 2 v_lt = VList [VStr []; VStr [97; 98]%N; VStr [98]%N].
+Proof. exact sort_nonvacuous. Qed.
+
+(* median: the middle order statistic(s) *)
+Theorem C08_median_order_statistic :
+  forall n ns,
+  let l := n :: ns in let k := (length l / 2)%nat in
+  if Nat.even (length l)
+  then exists lo hi, b_median (map vnum l) = vnum (ndiv (nadd lo hi) (2, 0)) /\ is_order_stat l (k - 1) lo /\ is_order_stat l k hi
+  else exists m, b_median (map vnum l) = vnum m /\ is_order_stat l k m.
+Proof. exact median_order_stat. Qed.
+Theorem C08_order_statistic_is_determined :
+  forall l i v v', is_order_stat l i v -> is_order_stat l i v' -> neqv v v' = true.
+Proof. exact order_stat_unique. Qed.
+
+(* stddev: the sample standard deviation; `sqrt` stands for FeelNumber::sqrt *)
+Theorem C08_stddev :
+  forall sqrt x1 x2 ns,
+  let l := x1 :: x2 :: ns in
+  let n := (Z.of_nat (length l), 0) in
+  let mean := ndiv (rsum l) n in
+  let squares := map (fun x => rsquare (rsub x mean)) l in
+  b_stddev sqrt (map vnum l) =
+  match sqrt (ndiv (rsum squares) (rsub n (1, 0))) with Some r => vnum r | None => VNull end.
+Proof. exact stddev_spec. Qed.
+Theorem C08_stddev_outside_domain :
+  forall sqrt,
+  b_stddev sqrt [] = VNull /\ (forall x, b_stddev sqrt [x] = VNull) /\
+  forall pre x post, (match x with VNum _ _ => False | _ => True end) -> b_stddev sqrt (map vnum pre ++ x :: post) = VNull.
+Proof. exact stddev_outside. Qed.
+Theorem C08_rounding_exact_within_34_digits :
+  forall c e, digits (Z.abs c) <= 34 -> nround (c, e) = (c, e).
+Proof. exact nround_exact. Qed.
+Example C08_stddev_nonvacuous :
+  b_stddev sqrt_int (map vnum [(1, 0); (2, 0); (3, 0)]) = VNum 1 0 /\
+  b_stddev sqrt_int (map vnum [(10, 0); (20, 0); (60, 0)]) = VNull /\
+  match stddev_radicand_of (map vnum [(10, 0); (20, 0); (60, 0)]) with Some r => ncmp (fst r) (snd r) 700 0 | None => Gt end = Eq /\
+  match stddev_radicand_of (map vnum [(2, 0); (4, 0); (4, 0); (4, 0); (5, 0); (5, 0); (7, 0); (9, 0)]) with
+  | Some r => ncmp (fst r * 7) (snd r) 32 0 | None => Gt end = Lt /\
+  rsub (5, 0) (1, 0) = (4, 0).
+Proof. exact stddev_nonvacuous. Qed.
+
+(* sqrt_dec : the decimal128 square root of Base/DecRound.v (correctly rounded: C02/Sqrt.v) *)
+Example C08_stddev_with_decimal_sqrt :
+  b_stddev sqrt_dec (map vnum [(2, 0); (4, 0); (4, 0); (4, 0); (5, 0); (5, 0); (7, 0); (9, 0)]) = VNum 2138089935299395077476427847038028 (-33) /\
+  pos_stddev sqrt_dec [VNum 10 0; VNum 20 0; VNum 60 0] = VNum 2645751311064590590501615753639260 (-32) /\
+  pos_stddev sqrt_dec [VNum 10 0] = VNull /\ pos_stddev sqrt_dec [VList [VNum 1 0; VNum 3 0]] = b_stddev sqrt_dec [VNum 1 0; VNum 3 0].
+Proof. exact stddev_dec_nonvacuous. Qed.
+
+(* split / replace / matches with a literal pattern *)
+Theorem C08_split_join :
+  forall s d, join d (split_lit s d) = s.
+Proof. exact split_join. Qed.
+Theorem C08_split_pieces_free :
+  forall s d, d <> [] -> forall p, In p (split_lit s d) -> containsb p d = false.
+Proof. exact split_pieces_free. Qed.
+Theorem C08_split_equation :
+  forall s d, d <> [] ->
+  split_lit s d = match find d s with Some i => firstn i s :: split_lit (skipn (i + length d) s) d | None => [s] end.
+Proof. exact split_equation. Qed.
+Theorem C08_replace_is_split_join :
+  forall s p r, replace_lit s p r = join r (split_lit s p).
+Proof. exact replace_is_split_join. Qed.
+Theorem C08_replace_equation :
+  forall s p r, p <> [] ->
+  replace_lit s p r = match find p s with Some i => firstn i s ++ r ++ replace_lit (skipn (i + length p) s) p r | None => s end.
+Proof. exact replace_equation. Qed.
+Theorem C08_replace_by_itself :
+  forall s p, replace_lit s p p = s.
+Proof. exact replace_by_itself. Qed.
+Theorem C08_literal_no_occurrence :
+  forall s p r, containsb s p = false ->
+  split_lit s p = [s] /\ replace_lit s p r = s /\ b_matches (VStr s) (VStr p) = VBool false.
+Proof. exact no_occurrence. Qed.
+Theorem C08_matches_literal :
+  forall s p, b_matches (VStr s) (VStr p) = VBool true <-> exists a b, s = a ++ p ++ b.
+Proof. exact matches_spec. Qed.
+Theorem C08_matches_iff_split_splits :
+  forall s d, containsb s d = true <-> (1 < length (split_lit s d))%nat.
+Proof. exact matches_iff_split_splits. Qed.
+Theorem C08_split_replace_matches_domain :
+  forall a b c, (match a, b with VStr _, VStr _ => False | _, _ => True end) ->
+  b_split a b = VNull /\ b_matches a b = VNull /\ b_replace a b c = VNull.
+Proof. exact split_replace_matches_domain. Qed.
+Theorem C08_split_replace_forms :
+  forall s d r,
+  b_split (VStr s) (VStr d) = VList (map VStr (split_lit s d)) /\
+  b_replace (VStr s) (VStr d) (VStr r) = VStr (replace_lit s d r) /\
+  b_replace_impl (VStr s) (VStr d) (VStr r) = VStr (trim (replace_lit s d r)).
+Proof. exact split_replace_forms. Qed.
+(* known finding replace-trim: the code (b_replace_impl) trims the result, the specified value (b_replace) keeps the blanks *)
+Theorem C08_replace_trim_known :
+  b_replace (VStr [32; 97; 98; 32]%N) (VStr [98]%N) (VStr [120]%N) = VStr [32; 97; 120; 32]%N /\
+  b_replace_impl (VStr [32; 97; 98; 32]%N) (VStr [98]%N) (VStr [120]%N) = VStr [97; 120]%N.
+Proof. exact replace_trim_refuted. Qed.
+Example C08_literal_nonvacuous :
+  split_lit [97; 88; 98; 88; 88; 99; 88]%N [88]%N = [[97]; [98]; []; [99]; []]%N /\
+  split_lit [97; 97; 97]%N [97; 97]%N = [[]; [97]]%N /\
+  replace_lit [97; 98; 97; 98; 97]%N [97; 98; 97]%N [45]%N = [45; 98; 97]%N /\
+  b_matches (VStr [104; 105]%N) (VStr [105]%N) = VBool true.
+Proof. exact literal_nonvacuous. Qed.
 
 Example C08_nonvacuous :
   let l := VList [VNum 1 0; VNum 10 (-1); VNull; VList [VNum 2 0]; VNum 1 0] in
@@ -322,5 +488,37 @@ Print Assumptions C08_orig_named_mean_refuted.
 Print Assumptions C08_max_strings.
 Print Assumptions C08_min_strings.
 Print Assumptions C08_min_max_dispatch.
-Print Assumptions C08_mode_members_partial.
+Print Assumptions C08_mode.
+Print Assumptions C08_mode_is_determined.
+Print Assumptions C08_mode_reading.
+Print Assumptions C08_mode_outside_domain.
+Print Assumptions C08_mode_runs.
+Print Assumptions C08_number_sort_stable.
+Print Assumptions C08_sort_by_precedes.
+Print Assumptions C08_sort_is_determined.
+Print Assumptions C08_sorted_by_positions.
+Print Assumptions C08_sort_any_relation_permutation.
+Print Assumptions C08_sort_outside_domain.
+Print Assumptions C08_number_order_is_strict_weak.
+Print Assumptions C08_sort_nonvacuous.
+Print Assumptions C08_median_order_statistic.
+Print Assumptions C08_order_statistic_is_determined.
+Print Assumptions C08_stddev.
+Print Assumptions C08_stddev_outside_domain.
+Print Assumptions C08_rounding_exact_within_34_digits.
+Print Assumptions C08_stddev_nonvacuous.
+Print Assumptions C08_stddev_with_decimal_sqrt.
+Print Assumptions C08_split_join.
+Print Assumptions C08_split_pieces_free.
+Print Assumptions C08_split_equation.
+Print Assumptions C08_replace_is_split_join.
+Print Assumptions C08_replace_equation.
+Print Assumptions C08_replace_by_itself.
+Print Assumptions C08_literal_no_occurrence.
+Print Assumptions C08_matches_literal.
+Print Assumptions C08_matches_iff_split_splits.
+Print Assumptions C08_split_replace_matches_domain.
+Print Assumptions C08_split_replace_forms.
+Print Assumptions C08_replace_trim_known.
+Print Assumptions C08_literal_nonvacuous.
 Print Assumptions C08_nonvacuous.
